@@ -37,6 +37,8 @@ pub struct PeerFns {
     pub resave_remote: fn(&mut dyn Storage, &str, &str) -> StdResult<Addr>,
     /// schema name of `Remote<'static, this type>`
     pub schema_name: fn() -> String,
+    /// registers `Remote<'static, this type>` in a schema generator shared with other handle types
+    pub schema_register: fn(&mut sylvia::schemars::gen::SchemaGenerator),
 }
 
 static REG: OnceLock<BTreeMap<String, PeerFns>> = OnceLock::new();
